@@ -1305,6 +1305,17 @@ impl Server {
                     Some(RequestType::HardStop(_)) => {
                         let req_id = request.id.clone();
                         self.notify(request);
+                        // Responses to requests read earlier in this batch are
+                        // still in the thread-local queue: write them out before
+                        // the final OK, the run loop returns right after this.
+                        QUEUE.with(|queue| {
+                            let mut queue = queue.borrow_mut();
+                            while let Some(response) = queue.pop_front() {
+                                if let Err(e) = self.channel.write_message(&response) {
+                                    error!("Could not send queued response to the main process: {}", e);
+                                }
+                            }
+                        });
                         if let Err(e) = self.channel.write_message(&WorkerResponse::ok(req_id)) {
                             error!("Could not send ok response to the main process: {}", e);
                         }
